@@ -767,6 +767,9 @@ def replay_selective(case, model, rec):
 def sweep_c04(tier, seed):
     n = 30 if tier == "quick" else 600
     viol = []
+    r = replay_hilbert("", {}, {})
+    if r["reproduced"]:
+        viol.append({"name": "C04.native.hilbert_table", "input": r["input"], "observed": r["observed"]})
     for k in range(n):
         try:
             r = selective_case(seed * 6007 + k, adversarial=(k % 3 != 0))
@@ -788,7 +791,7 @@ def replay_hilbert(case, model, rec):
 
     from contracts import ref_hilbert as R
 
-    for bl in (1, 2, 3, 4):
+    for bl in (1, 2, 3, 4, 5):
         n = 2 ** bl
         keys = set()
         for p in itertools.product(range(n), repeat=3):
